@@ -206,7 +206,7 @@ def ensure_harness(kinds, san=False):
     return ok, logs
 
 
-WB_KINDS = [0, 1, 2, 3, 5, 6, 7, 8, 9]   # containers with a literal (L3) machine extracted for the white-box comparison
+WB_KINDS = [0, 1, 2, 3, 4, 5, 6, 7, 8, 9]   # containers with a literal (L3) machine extracted for the white-box comparison
 
 
 def ensure_wb(kinds):
